@@ -70,6 +70,7 @@ UNIT = {
         (r'terminal t\(the_terminal_type, n\);', 'struct terminal t; terminal__ctor_th(&t, the_terminal_type, n);', FH),
     ] + [(r'terminal one\( RANGE\(1\) \);', 'struct terminal one; terminal__ctor_long(&one, RANGE(1));', opfile(op)) for op in ('mult', 'div')],
     'functions': funcs,
+    'replay_full_library': True, 'replay_link': ['-lgmp'],
     'stubs': ['local terminal objects "terminal t(args);" are mapped (text_subst, must fire) to a struct plus a call of the extracted constructor body'],
     'assumptions': ['RANGE = long (integer multi-terminal forests); real-valued kernels (float division/rounding) are not covered',
                     'only the scalar kernels and shortcut predicates; the recursion of arith_compat/arith_factor/arith_pushdn that applies them is not covered',
